@@ -117,11 +117,11 @@ func (c *baseTrafficShapingController) performCheckingForConcurrencyMetric(arg i
 	specificItem := c.specificItems
 	initConcurrency := int64(0)
 	concurrencyPtr := c.metric.ConcurrencyCounter.AddIfAbsent(arg, &initConcurrency)
-	if concurrencyPtr == nil {
-		// First to access this arg
-		return nil
+	concurrency := int64(0)
+	if concurrencyPtr != nil {
+		concurrency = atomic.LoadInt64(concurrencyPtr)
 	}
-	concurrency := atomic.LoadInt64(concurrencyPtr)
+	// First access of this arg: nothing is in flight yet, but the threshold (which may be 0) still applies.
 	concurrency++
 	if specificConcurrency, existed := specificItem[arg]; existed {
 		if concurrency <= specificConcurrency {
